@@ -114,6 +114,50 @@ def leaver_cases(rng, n):
                    horizon=t + 100000, meta=dict(kind='owner-leaves', dest=d, sa=sa, t_leave=t_leave, packets=npk, leave_after=leave_after, unfiltered=unf, shape=0, dll='j1939-21', broadcast=False))
 
 
+def late_cases(rng, n):
+    """a listener bound to a CA AFTER the CA has become operational (by claiming or by bypass); the CA then loses its address
+    to a lower NAME (or keeps it, as the control): "a CA that does not currently hold an address receives nothing
+    destination-specific" — frames to the address it used to hold are then foreign traffic"""
+    for k in range(n):
+        dll = 'j1939-21' if k % 2 == 0 else 'j1939-22'
+        x = rng.choice([0x41, 0x05, 0x7F, 0x90, 0xD3, rng.randrange(0, 248)])
+        bypass = rng.random() < 0.5
+        loses = k % 3 != 2
+        name = (rng.getrandbits(62) | (1 << 61)) & ~(1 << 63)          # not arbitrary-address-capable: a loss ends in cannot-claim
+        low = list((name & ((1 << 40) - 1)).to_bytes(8, 'little'))
+        sa = (x + 0x31) % 0xFE
+        script = [] if bypass else [dict(t=1000, s=0, op='ca_start', ca=0, delay=0)]
+        script.append(dict(t=400000, s=0, op='ca_subscribe', ca=0, cid=5))
+        inject = []
+        if loses:
+            inject.append(dict(t=500000, to=0, id=R.ref_can_id(6, 0xEEFF, x), data=low, via='listener'))
+        fr = [f for f in frames_for(dll, x, sa) if f[0] in ('pdu1-app', 'pdu1-app-dp1', 'tp-rts', 'fd-rts', 'fd-multipg')]
+        for i, f in enumerate(fr):
+            inject.append(dict(t=1200000 + 1000 * i, to=0, id=f[1], data=f[2], fd=f[3], via='listener'))
+        yield dict(stacks=[dict(dll=dll, max_cmdt=2, subs=[], cas=[dict(name=name, addr=x, bypass=bypass, subs=[], req=[])])], lat=[1], jit=[1],
+                   script=script, inject=inject, horizon=1200000 + 3_000_000,
+                   meta=dict(kind='late-subscriber', dest=x, sa=sa, loses=loses, bypass=bypass, shape=0, dll=dll, broadcast=False))
+
+
+def oracle_late(sc, res):
+    m = sc['meta']
+    v = []
+    cbs = [e for e in res.trace if e[2] == 'cb' and e[0] > 1100000]
+    txs = [e for e in res.trace if e[2] == 'tx' and e[0] > 1100000]
+    if m['loses']:
+        if cbs:
+            v.append(dict(kind='delivery-to-a-ca-that-lost-its-address', meta=m, t=cbs[0][0], cid=cbs[0][3], pgn=cbs[0][5]))
+        if txs:
+            v.append(dict(kind='frame-sent-for-an-address-no-longer-owned', meta=m, t=txs[0][0], id=hex(txs[0][3]), data=list(txs[0][6])))
+    else:
+        if not cbs:
+            v.append(dict(kind='late-subscriber-of-an-operational-ca-got-nothing', meta=m))
+    for js in res.job:
+        if js != 'alive':
+            v.append(dict(kind='job-thread-' + js, meta=m))
+    return v
+
+
 def oracle_leaver(sc, res):
     m = sc['meta']
     v = []
@@ -135,6 +179,8 @@ def oracle(sc, res):
     m = sc.get('meta')
     if m is not None and m.get('kind') == 'owner-leaves':
         return oracle_leaver(sc, res)
+    if m is not None and m.get('kind') == 'late-subscriber':
+        return oracle_late(sc, res)
     if m is None:
         return oracle_tp.check_exactly_once(sc, res) + bystander(sc, res)
     v = []
@@ -211,7 +257,7 @@ def run(out, tier, rng, work):
     dests = sorted(set([0, 1, 0x3F, 0x40, 0x41, 0x42, 0x43, 0x44, 0x45, 0x46, 0x47, 0x48, 0x7F, 0x80, 0xEA, 0xFD, 0xFE, 0xFF] + [rng.randrange(256) for _ in range(25)])) if tier == 'quick' else list(range(256))
     runs = []
     worst = {}
-    for sc in list(one_frame_cases(['j1939-21', 'j1939-22'], dests)) + list(flag_cases(['j1939-21', 'j1939-22'])) + list(leaver_cases(rng, 60 if tier == 'quick' else 1500)):
+    for sc in list(one_frame_cases(['j1939-21', 'j1939-22'], dests)) + list(flag_cases(['j1939-21', 'j1939-22'])) + list(leaver_cases(rng, 60 if tier == 'quick' else 1500)) + list(late_cases(rng, 36 if tier == 'quick' else 600)):
         res = scen.run(sc)
         runs.append((sc, res))
         out.add_case(scen.sc_hash(sc), True, sample=sc['meta'] if len(out.samples) < 3 else None)
